@@ -53,6 +53,7 @@ CONSTANTS MaxClock,   \* the clock runs 0..MaxClock
           Paths,      \* subset of {"sleep","wake","qsleep","qwake"}: arrival paths of the instance
           Peers,      \* connected peers (senders and forwarding targets)
           NewPeers,   \* peers that may connect later (pending-wake forwarding)
+          Maintenance,\* TRUE: cleanup() is a step of the instance (FALSE where the binding cannot call it: whole agents)
           Dev,        \* enabled deviations
           OneDev,     \* TRUE: a behaviour stops after its first deviation step (relation used to classify mismatches)
           Emit        \* TRUE: print every transition as JSON
@@ -261,7 +262,7 @@ Step ==
         \/ DevQueuedPathUnverified(path, from, d.c, d.loop)
         \/ DevMarkSeenBeforeVerify(path, from, d.c, d.loop)
   \/ Tick
-  \/ Cleanup \/ DevCacheForgetsInsideWindow \/ DevSizeEviction \/ DevCleanupPinned
+  \/ Maintenance /\ (Cleanup \/ DevCacheForgetsInsideWindow \/ DevSizeEviction \/ DevCleanupPinned)
   \/ \E p \in NewPeers : PeerConnected(p)
   \/ \E kind \in {"sleep", "wake"}, id \in LocalIds : LocalIssue(kind, id)
 
@@ -298,7 +299,7 @@ RejectedChangesNothing ==
   [][(key /\ last'.act = "Receive" /\ last'.res = "invalid") => UNCHANGED <<cache, st, pend>>]_vars
 
 EmitEdge ==
-  (Emit /\ (OneDev => "dev" \in DOMAIN last')) => PrintT("EDGE " \o ToJson([s |-> [key |-> key, clock |-> clock, cache |-> cache, st |-> st, pend |-> pend],
+  Emit => PrintT("EDGE " \o ToJson([s |-> [key |-> key, clock |-> clock, cache |-> cache, st |-> st, pend |-> pend],
                                      a |-> last',
                                      t |-> [key |-> key', clock |-> clock', cache |-> cache', st |-> st',
                                             pend |-> pend']]))
